@@ -333,6 +333,30 @@ class RaceWorld:
 
         self._patch(driver.AsyncExecutor, "__call__", observed_call)
 
+        # every ThroughputCalculator.calculate() call of the race (whatever calculator object the driver uses at that moment):
+        # the batch, the result and a snapshot of the TaskStats afterwards (C06's driver leg validates them against Throughput.tla)
+        self.tput_calls = []
+        orig_calc = driver.ThroughputCalculator.calculate
+
+        def observed_calc(self_, samples, *a, **k):
+            batch = list(samples)
+            res = orig_calc(self_, samples, *a, **k)
+            snap = {}
+            for task_, ts in getattr(self_, "task_stats", {}).items():
+                snap[task_] = {
+                    "unprocessed": list(ts.unprocessed),
+                    "total_count": ts.total_count,
+                    "interval": ts.interval,
+                    "bucket": ts.bucket,
+                    "sample_type": ts.sample_type,
+                    "has": ts.has_samples_in_sample_type,
+                    "start_time": ts.start_time,
+                }
+            world.tput_calls.append({"batch": batch, "res": res, "stats": snap})
+            return res
+
+        self._patch(driver.ThroughputCalculator, "calculate", observed_calc)
+
         class SimWorker(driver.Worker):
             def __init__(self_):
                 super().__init__()
